@@ -47,9 +47,14 @@ def run_basic(prop, tier, seed, gen_kwargs=None):
             k = r.random()
             if k < 0.3:
                 return gen3.gen_lane_stress(r)
-            if k < 0.5:
+            if k < 0.45:
                 return gen3.gen_prefix_overlap(r)
+            if k < 0.6:
+                return gen3.gen_nullable_tails(r)
             return gen.gen_core(r, **gk)
+    elif prop == "C02":
+        from .. import gen3 as _g3b
+        genf = lambda r: (_g3b.add_same_action_twins(r, gen.gen_core(r, **gk)) if r.random() < 0.4 else gen.gen_core(r, **gk))
     else:
         genf = lambda r: gen.gen_core(r, **gk)
     if prop == "C05":
